@@ -4,7 +4,7 @@ package protocol
 
 // Machine-checked contracts (govc, see /verif/DESIGN.md). Comment-only file.
 
-//@ property C12
+//@ property C12 C04
 
 //@ func (apiType).minVersion
 //@   pure
